@@ -187,6 +187,87 @@ theorem bindL_isSome : ∀ (ps : List SPat) (vs : List Val), (bindL ps vs).isSom
       simp [h1, ← h2]
 end
 
+theorem subAt_append (π : List Nat) (k : Nat) (root : Val) {c : Nat} {vs : List Val}
+    (h : subAt π root = some (.ctor c vs)) : subAt (π ++ [k]) root = vs[k]? := by
+  induction π generalizing root with
+  | nil =>
+    simp only [subAt, Option.some.injEq] at h
+    subst h
+    simp only [List.nil_append, subAt]
+    cases vs[k]? <;> rfl
+  | cons j π ih =>
+    cases root with
+    | lit l => simp [subAt] at h
+    | ctor c' ws =>
+      simp only [subAt, List.cons_append] at h ⊢
+      cases hw : ws[j]? with
+      | none => rw [hw] at h; cases h
+      | some w => rw [hw] at h; exact ih w h
+
+mutual
+/-- every variable is bound to the sub-value at its occurrence path -/
+theorem bind_paths : ∀ (p : SPat) (v root : Val) (π : List Nat) (bs : List (Nat × Val)),
+    subAt π root = some v → bind p v = some bs →
+      (varPaths p π).map (fun xp => (xp.1, subAt xp.2 root)) = bs.map (fun b => (b.1, some b.2))
+  | .var x, v, root, π, bs, hs, hb => by
+    simp only [bind, Option.some.injEq] at hb; subst hb
+    simp [varPaths, hs]
+  | .discard, v, root, π, bs, hs, hb => by
+    simp only [bind, Option.some.injEq] at hb; subst hb
+    simp [varPaths]
+  | .as_ x p, v, root, π, bs, hs, hb => by
+    simp only [bind] at hb
+    cases hp : bind p v with
+    | none => rw [hp] at hb; cases hb
+    | some bs' =>
+      rw [hp] at hb
+      simp only [Option.map_some, Option.some.injEq] at hb; subst hb
+      simp [varPaths, hs, bind_paths p v root π bs' hs hp]
+  | .lit l, .lit l', root, π, bs, hs, hb => by
+    simp only [bind] at hb
+    split at hb
+    · cases hb; simp [varPaths]
+    · cases hb
+  | .lit _, .ctor _ _, root, π, bs, hs, hb => by simp [bind] at hb
+  | .ctor _ _ _, .lit _, root, π, bs, hs, hb => by simp [bind] at hb
+  | .ctor c _ ps, .ctor c' vs, root, π, bs, hs, hb => by
+    simp only [bind] at hb
+    split at hb
+    · simp only [varPaths]
+      exact bindL_paths ps vs root π 0 bs c' vs (by simp) hs hb
+    · cases hb
+theorem bindL_paths : ∀ (ps : List SPat) (ws : List Val) (root : Val) (π : List Nat) (k : Nat)
+    (bs : List (Nat × Val)) (c : Nat) (vs : List Val),
+    ws = vs.drop k → subAt π root = some (.ctor c vs) → bindL ps ws = some bs →
+      (varPathsL ps π k).map (fun xp => (xp.1, subAt xp.2 root)) = bs.map (fun b => (b.1, some b.2))
+  | [], [], root, π, k, bs, c, vs, _, _, hb => by
+    simp only [bindL, Option.some.injEq] at hb; subst hb
+    simp [varPathsL]
+  | [], _ :: _, root, π, k, bs, c, vs, _, _, hb => by simp [bindL] at hb
+  | _ :: _, [], root, π, k, bs, c, vs, _, _, hb => by simp [bindL] at hb
+  | p :: ps, w :: ws, root, π, k, bs, c, vs, hd, hs, hb => by
+    simp only [bindL] at hb
+    cases hp : bind p w with
+    | none => rw [hp] at hb; cases hb
+    | some b =>
+      rw [hp] at hb
+      cases hps : bindL ps ws with
+      | none => rw [hps] at hb; cases hb
+      | some bs' =>
+        rw [hps] at hb
+        simp only [Option.map_some, Option.some.injEq] at hb; subst hb
+        have hk : vs[k]? = some w := by
+          have := congrArg (fun l => l[0]?) hd
+          simpa [List.getElem?_drop] using this.symm
+        have hsub : subAt (π ++ [k]) root = some w := by rw [subAt_append π k root hs, hk]
+        have hd' : ws = vs.drop (k + 1) := by
+          have := congrArg (fun l => l.drop 1) hd
+          simpa [List.drop_drop, Nat.add_comm] using this
+        simp only [varPathsL, List.map_append]
+        rw [bind_paths p w root (π ++ [k]) b hsub hp,
+          bindL_paths ps ws root π (k + 1) bs' c vs hd' hs hps]
+end
+
 theorem simplifyL_eq_map (ps : List SPat) : simplifyL ps = ps.map simplify := by
   induction ps with
   | nil => simp [simplifyL]
